@@ -225,6 +225,7 @@ def clause5(P, res):
         fwd = [(b, e) for b in fam for e in b.calls() if e.method in ("wake_next", "wake_waiters")]
         if not fwd:
             probs.append("never forwards a consumed wake (a waiter woken and then cancelled leaves the next waiter asleep forever)")
+        early = []
         for b, f in fwd:
             # the branch that decides the forward must be the outcome of `state == WOKEN`: directly, or through the bool returned by a helper that computes it
             ok = False
@@ -236,6 +237,15 @@ def clause5(P, res):
                     continue
                 evs, _, _ = mir.operand_sources(b, t["o"])
                 direct = any(e in evs for e in woken_tests(b))
+                if direct:
+                    # the sample must be taken after the node left the list (a waker marks nodes WOKEN under the list lock; sampling earlier misses a wake that lands in between)
+                    for wt in woken_tests(b):
+                        if wt not in evs:
+                            continue
+                        lds = [x for x in mir.operand_sources(b, {"c": [wt.data["p"][0], []]})[0] if x.kind == "call" and x.is_atomic and x.method == "load"]
+                        gates = {u.pos for ub, u in unl if ub is b} | {x.pos for x in b.calls() if P.body(x.callee_resolved) is not None and any(ub is P.body(x.callee_resolved) for ub, _ in unl)}
+                        if lds and gates and not all(b.dominated_by_any(l.pos, gates) for l in lds):
+                            early.append((lds[0], f))
                 via = any(e.kind == "call" and P.body(e.callee_resolved) is not None and P.body(e.callee_resolved) in fam and woken_tests(P.body(e.callee_resolved)) for e in evs)
                 if not (direct or via):
                     continue
@@ -245,6 +255,8 @@ def clause5(P, res):
                         ok = True
             if not ok:
                 probs.append(f"the wake forwarded at {f.loc} is not decided by the node's WOKEN state (a proxy such as list membership is wrong for writers, which stay linked after being woken)")
+        for l, f in early[:1]:
+            probs.append(f"the node state is sampled at {l.loc} before the node is unlinked: a wake that marks it WOKEN between the sample and the unlink is consumed and never forwarded")
         for b, f in fwd:
             same = [u for ub, u in unl if ub is b]
             if same and not b.dominated_by_any(f.pos, {u.pos for u in same}) and not any(ub is not b for ub, _ in unl):
@@ -396,6 +408,85 @@ def clause7(P, res):
                                  "when it is the only kind of waiter queued the release wakes nobody and it sleeps forever", where=w.loc)
 
 
+def clause8(P, res):
+    rid = "C10-8"
+    res.rule(rid, "the lock word is only changed by atomic read-modify-write: LOCKED / WRITE_LOCKED / reader count share one word with the queue flags, and the two halves are "
+                  "changed by different parties (acquire/release without the list lock, flags under it) — a plain `store` (or load + store) of the word overwrites the "
+                  "other party's concurrent change (two guards at once, or a lock nobody owns)")
+    n = stores = 0
+    for b in sync_bodies(P):
+        if not re.search(r"sync::(mutex|rwlock)::", b.id) or b.name == "new":
+            continue
+        for e in b.calls():
+            if e.is_atomic and e.args and b.path_of_operand(e.args[0]).endswith(".state") and "node" not in b.path_of_operand(e.args[0]):
+                n += 1
+                if e.method == "store":
+                    stores += 1
+                    res.violated(rid, f"{b.id}:state.store", f"plain store to the lock word at {e.loc}: a concurrent acquire/release between the preceding load and this store is lost",
+                                 where=e.loc)
+    node_stores = sum(1 for b in sync_bodies(P) for e in b.calls() if e.is_atomic and e.method == "store" and e.args and b.path_of_operand(e.args[0]).endswith("node.state"))
+    if n < 25 or node_stores < 2:
+        res.violated(rid, "lock-word-sites", f"expected >= 25 atomic operations on the lock words and >= 2 node-state stores (matcher self-check), found {n}/{node_stores}")
+    elif not stores:
+        res.holds(rid, "lock-word-sites", f"{n} atomic operations on the lock words, none of them a plain store", where="channels/src/sync", obligations=n)
+
+
+ROLE = [("mutex-acquire", r"sync::mutex::(HybridMutex::<T>::(try_acquire|lock_slow|try_lock)|MutexFuture)"),
+        ("rwlock-read", r"sync::rwlock::(HybridRwLock::<T>::(try_acquire_read|read_slow|try_read)|ReadFuture)"),
+        ("rwlock-write", r"sync::rwlock::(HybridRwLock::<T>::(try_acquire_write|write_slow|try_write)|WriteFuture)")]
+
+
+def clause9(P, res):
+    rid = "C10-9"
+    res.rule(rid, "all acquisition paths of one kind test the same bits: the fast path, the slow path's post-queue re-check, the try_ variant and the future's poll of each "
+                  "lock mode decide admission with one and the same mask of the lock word — a path that ignores a bit the others honour (e.g. WRITER_PENDING in the blocking "
+                  "reader's re-check) lets that path barge past the gate the others respect (writer starvation), or wait for a bit nobody clears")
+    for role, rx in ROLE:
+        masks = {}
+        for b in sync_bodies(P):
+            if not re.search(rx, b.id) or "drop" in b.name:
+                continue
+            for blk in range(len(b.blocks)):
+                g = mask_gate(b, blk)
+                if g:
+                    masks.setdefault(g[0], []).append((b, blk))
+        if not masks:
+            res.violated(rid, role, "no admission mask test found (selector drift)")
+            continue
+        sites = sum(len(v) for v in masks.values())
+        if len(masks) == 1:
+            m = next(iter(masks))
+            res.holds(rid, role, f"{sites} admission tests, all with mask {m:#x}", where=masks[m][0][0].file, obligations=sites)
+        else:
+            major = max(masks, key=lambda k: len(masks[k]))
+            for m, lst in masks.items():
+                if m != major:
+                    b, blk = lst[0]
+                    res.violated(rid, f"{role}:{b.name}", f"{b.id} decides admission with mask {m:#x} while the other {len(masks[major])} {role} paths use {major:#x}: "
+                                 "the bits in the difference are ignored (or demanded) by this path only", where=f"{b.file}:{b.line}")
+
+
+def clause10(P, res):
+    from rules import cachelib
+    rid = "C10-10"
+    res.rule(rid, "re-arming installs the caller's handle and WAITING on every path: ListGuard::rearm is how a slow path or a re-polled future registers the waker of "
+                  "*this* attempt; keeping an older handle (conditional store) delivers the wake to a stale waker")
+    b = P.body("fibre::sync::wait_queue::ListGuard::<'_>::rearm")
+    if b is None:
+        res.unclassified(rid, "rearm", "ListGuard::rearm not found")
+        return
+    wr = [e for e in b.events if e.kind == "assign" and e.data["p"][1] and b.path_of_place(e.data["p"]).endswith(".waiter")] + \
+         [e for e in b.calls() if e.method in ("replace", "insert", "write") and e.args and b.path_of_operand(e.args[0]).endswith(".waiter")]
+    st = [e for e in b.calls() if e.is_atomic and e.method == "store" and e.args and b.path_of_operand(e.args[0]).endswith(".state")]
+    ok_w = wr and cachelib.all_paths_pass(b, [(0, 0)], [e.pos for e in wr])
+    ok_s = st and cachelib.all_paths_pass(b, [(0, 0)], [e.pos for e in st])
+    if ok_w and ok_s:
+        res.holds(rid, "rearm", "waiter handle and WAITING state written on every path", where=wr[0].loc, obligations=2)
+    else:
+        res.violated(rid, "rearm", ("the node's waiter handle is not replaced on every path: a future re-polled with a different waker keeps the old one and the wake goes to a stale task"
+                                    if not ok_w else "the node state is not reset to WAITING on every path"), where=f"{b.file}:{b.line}")
+
+
 def run(P, ctx):
     res = Result("C10")
     res.extra["explanation"] = "Acquisition/guard, release/wake, queue-and-recheck, cancellation and type-level shapes of HybridMutex and HybridRwLock."
@@ -408,4 +499,7 @@ def run(P, ctx):
     clause5(P, res)
     clause6(P, res)
     clause7(P, res)
+    clause8(P, res)
+    clause9(P, res)
+    clause10(P, res)
     return res
